@@ -323,6 +323,52 @@ def r9_resolve_before_fail(run, F):
     run.require(n >= 6, "resolver: `?` sites on type results not found (%d)" % n)
 
 
+TYPE_WALKERS = [
+    # (function, traversal callees, reviewed exceptions {key: reason})
+    ("alpha::scoper::variable_references::analyze_type",
+     ["alpha::scoper::variable_references::analyze_type", "alpha::scoper::variable_references::Analyzer::use_struct",
+      "alpha::scoper::variable_references::Analyzer::use_constant"],
+     {"ValueType::Struct.identifier": "Struct/Word types are built by the typer; the scoper only sees UnresolvedStructOrWord (arm is unreachable!())",
+      "ValueType::Word.identifier": "as above"}),
+    ("alpha::typer::analyze_type",
+     ["alpha::typer::analyze_type", "alpha::typer::Typer::retrieve_named_length", "alpha::typer::Typer::put_symbol", "alpha::typer::Typer::get_symbol"],
+     {"ValueType::Struct.identifier": "already resolved by the typer itself", "ValueType::Word.identifier": "already resolved by the typer itself"}),
+    ("<alpha::value_type::ValueType<alpha::common::Identifier> as alpha::resolver::Resolvable>::resolve",
+     ["alpha::resolver::Resolvable::resolve"], {}),
+]
+
+
+def r11_type_walkers(run, F):
+    """Types are trees too: every function that rewrites a ValueType stage by stage must descend into every component of
+    every variant.  An arm that returns the type untouched leaves UnresolvedStructOrWord / ArrayWithNamedLength inside it,
+    which the resolver meets at `unreachable!()` (resolver.rs ValueType::resolve)."""
+    C = F.lib
+    vt = C.adts.get("alpha::value_type::ValueType")
+    run.require(vt is not None, "ValueType not found")
+    for fn, travs, exceptions in TYPE_WALKERS:
+        b = F.body(fn)
+        ms = [m for m in hirq.matches(b["hir"]) if sum(1 for a in m["arms"] if hirq.pat_key(a["pat"]).startswith("ValueType::")) >= 12]
+        run.require(len(ms) >= 1, "%s: match over ValueType not found" % fn)
+        tset = set(travs)
+
+        def is_trav(c, tset=tset):
+            return c in tset or any(c.endswith(t.split("alpha::")[-1]) and "Resolvable" in t for t in tset) or \
+                (c.endswith("as alpha::resolver::Resolvable>::resolve") and "alpha::resolver::Resolvable::resolve" in tset)
+
+        def whole_reject(arm):
+            cons = [hirq.short(p) for p, _ in hirq.constructs(arm["body"])]
+            pk = [c for c in hirq.calls(arm["body"]) if (hirq.callee(c) or "").startswith("core::panicking")]
+            return bool(pk) or ("Err" in [c.split("::")[-1] for c in cons] and not any((hirq.callee(c) or "") in tset for c in hirq.calls(arm["body"])) and any(c.startswith("Error::") for c in cons))
+        short = fn.split(" as ")[-1].replace(">::", "::") if fn.startswith("<") else fn
+        short = "::".join(short.split("::")[-3:])
+
+        def rep(key, ok, where, detail, sample, short=short):
+            run.ob("R11-TYPE-WALKERS", "%s|%s" % (short, key), ok, where, detail + ": that component keeps its unanalysed form", sample)
+        n = visit.check_match(F, C, b, ms[0], vt, "ValueType", {"alpha::value_type::ValueType", "alpha::common::Identifier"}, is_trav, rep,
+                              exceptions, whole_reject=whole_reject, subst={"I": "alpha::common::Identifier"})
+        run.require(n >= 10, "%s: too few obligations (%d)" % (fn, n))
+
+
 def check(run):
     F = run.facts("B")
     r1_inventory(run, F)
@@ -335,3 +381,4 @@ def check(run):
     r7_args_covered(run, F)
     r8_cited_invariants(run, F)
     r9_resolve_before_fail(run, F)
+    r11_type_walkers(run, F)
